@@ -8,7 +8,8 @@ What is taken from the *current* source on every run (fail-closed, any unexpecte
   * RegsBitField.set_value: pre-processing, the range test with its raise, the mask/shift/merge lines; the value handed
     to `self.parent.set_value(reg_val, raw)` is the result,
   * Register.set_value: the range test (`if value < 0 or value >= 1 << self.width: raise`), the sub-register bit position
-    (`if self.reverse_subregs_order: ... else: ...`) and the slice expression passed to `sub_reg.set_value`,
+    (`if self.reverse_subregs_order: ... else: ...`) and the slice expression passed to `sub_reg.set_value`; the shape of the two
+    loops (slices go to self.sub_regs[: alt_width // subreg_width], the remaining sub-registers are written with 0) is checked,
   * Register.get_value: the sub-register bit position and the accumulation `sub_regs_value |= sub.get_value(raw) << bit_pos`.
 The control skeleton around these lines (value_to_int, alt widths, byte reversal, loops over sub-registers) is hand-modelled in
 Model/RegsModel.v and tied by the correspondence run.  The structural facts the hand model relies on (which `raw` flag is
@@ -193,9 +194,29 @@ def extract(tree):
     out.append((f"Register.set_value range test (line {s1.lineno})",
                 _fn("reg_check", ["value", "width"], [rwr.visit(copy.deepcopy(s1)), ast.Return(value=ast.Name(id="value", ctx=ast.Load()))])))
     fors = [s for s in ast.walk(body[0]) if isinstance(s, ast.For)]
-    if len(fors) != 1:
-        raise Untranslatable("Register.set_value: expected one loop over sub registers")
-    f = fors[0]
+    if len(fors) != 2:
+        raise Untranslatable("Register.set_value: expected the distribution loop and the loop clearing the remaining sub registers")
+    f, fz = fors
+
+    def _is_quot(n):      # alt_width // subreg_width
+        return (isinstance(n, ast.BinOp) and isinstance(n.op, ast.FloorDiv) and isinstance(n.left, ast.Name) and n.left.id == "alt_width"
+                and isinstance(n.right, ast.Name) and n.right.id == "subreg_width")
+    # structural facts the hand model relies on: the first alt_width // subreg_width sub registers receive slices ...
+    heads = [s for s in ast.walk(body[0]) if isinstance(s, ast.Assign) and isinstance(s.value, ast.Subscript)
+             and _is_self_attr(s.value.value, "sub_regs") and isinstance(s.value.slice, ast.Slice)]
+    if not (len(heads) == 1 and heads[0].value.slice.lower is None and heads[0].value.slice.step is None
+            and _is_quot(heads[0].value.slice.upper) and isinstance(heads[0].targets[0], ast.Name)
+            and len(f.iter.args) == 1 and isinstance(f.iter.args[0], ast.Name) and f.iter.args[0].id == heads[0].targets[0].id):
+        raise Untranslatable("Register.set_value: the distribution loop does not run over self.sub_regs[: alt_width // subreg_width]")
+    # ... and every remaining one is written with 0, same raw flag
+    zc = fz.body[0].value if (len(fz.body) == 1 and isinstance(fz.body[0], ast.Expr)) else None
+    if not (isinstance(fz.target, ast.Name) and isinstance(fz.iter, ast.Subscript) and _is_self_attr(fz.iter.value, "sub_regs")
+            and isinstance(fz.iter.slice, ast.Slice) and fz.iter.slice.upper is None and fz.iter.slice.step is None
+            and _is_quot(fz.iter.slice.lower) and not fz.orelse
+            and zc is not None and _call_is(zc, lambda n: isinstance(n, ast.Name) and n.id == fz.target.id, "set_value")
+            and len(zc.args) == 1 and isinstance(zc.args[0], ast.Constant) and zc.args[0].value == 0
+            and isinstance(_kw(zc, "raw"), ast.Name) and _kw(zc, "raw").id == "raw" and len(zc.keywords) == 1):
+        raise Untranslatable("Register.set_value: second loop is not `for s in self.sub_regs[alt_width // subreg_width :]: s.set_value(0, raw=raw)`")
     if not (isinstance(f.target, ast.Tuple) and [e.id for e in f.target.elts] == ["index", "sub_reg"]
             and isinstance(f.iter, ast.Call) and isinstance(f.iter.func, ast.Name) and f.iter.func.id == "enumerate"
             and isinstance(_kw(f.iter, "start"), ast.Constant) and _kw(f.iter, "start").value == 1 and len(f.body) == 2):
